@@ -905,10 +905,7 @@ func (w *c02World) capText(s *c02Site) string {
 func (w *c02World) masked(op c02Op, s *c02Site) bool {
 	if op.site != nil {
 		_, ok := op.site(w, s)
-		// SinkType.Is on a parenthesised right-hand side of an assignment is known to differ (findSinkType's
-		// AssignStmt case compares the operands without astutil.Unparen; finding SinkType.Is:assign:rhs:parenthesised):
-		// not compared with the model, still judged by the statement
-		return !ok || (op.pred == "sinktypeis" && c02SinkGroup(s.class) == "assign:rhs:parenthesised")
+		return !ok
 	}
 	if op.pred != "typeis" && op.pred != "typeunderlyingis" {
 		return false
